@@ -4,6 +4,7 @@ import (
 	"fmt"
 	"go/token"
 	"go/types"
+	"os"
 	"sort"
 	"strings"
 
@@ -22,6 +23,7 @@ func init() {
 			"T1 a repo function that returns a bare pointer and has a `return nil` path (the fixed-size decoders refuse short input that way) has its result nil-checked before every dereference. T4 every function of W with constant offsets into a []byte parameter has a sufficient length guard. T5 no explicit panic / Must* on non-constant input in W (one named suppression: a compile-time table check). " +
 			"T7 narrow arithmetic: a multiplication of a decoded count by a constant element size carried out in 32 bits or less and feeding a comparison, a slice bound, an index or an allocation must be done after widening to 64 bits or be dominated by an upper-bound check of the count (sums of decoded offsets and sizes are validated relationally elsewhere and are not decided here). " +
 			"T9 the page loops of the SEV measurement run only after the address-range/alignment check returned nil. " +
+			"T10 sentinel index: the result of a bytes/strings/slices Index-family search (−1 = not found) used as an index, slice bound or allocation size needs a dominating sign test of that very value. T11 x[len(x)−k] / x[:len(x)−k] needs a dominating condition on that very slice value establishing len(x) ≥ k (one named suppression with reason in C07). T12 +,−,*,<< on a decoded operand carried out in fewer bits than the integer type its result is then converted to needs a dominating upper bound of the operand. T13 (ESP) a []byte sliced at bounds that move with a loop counter, in a loop that runs up to a value not computed from the buffer's length, is reached only on paths where executed checks relate that value to the buffer length through some chain of comparisons (decides that a relating chain exists, not that it is arithmetically sufficient). " +
 			"Not covered: general absence of panics for non-constant indices (would need a relational numeric domain sound under wrap-around), wall-time bounds as numbers.",
 		Assumptions: []string{"go/types, go/ssa, VTA call graph", "encoding/binary"},
 		Run:         runC08,
@@ -80,6 +82,13 @@ func runC08(c *Ctx) {
 	})
 	c.narrowArithRule("T7", fns)
 	c.nullableResultRule("T1", fns)
+	c.sentinelRule("T10", fns)
+	c.lenMinusRule("T11", fns, map[string]string{})
+	c.widenAfterArithRule("T12", fns)
+	c.S.Floor("T13", "slices at loop-carried bounds under a foreign loop bound", 1, c.foreignBoundSliceRule("T13", fns))
+	if os.Getenv("VCHECK_SURVEY") != "" {
+		c.surveyAccesses(fns)
+	}
 
 	// ---- T9 ----
 	high := c.P.Func("sev", "ProductHighAddress")
